@@ -93,6 +93,10 @@ fn main() {
                 let (c, e) = slices::sess::c07_cases(&mut rng, &tier);
                 (c, e, "generated program run uninterrupted vs with host breaks at random turn boundaries (1/5 each), side-effect-free inspection statements (incl. failing ones and failing FN calls) and CONT; plus assignment at a STOP vs the assignment in place of the STOP; non-trivial = at least one break".into())
             }
+            "c14" => {
+                let (c, e) = slices::list::cases(&mut rng, &tier);
+                (c, e, "1-8 storable lines (numerals in every spelling incl. hundreds of digits, DATA items quoted/unquoted/numeric/empty/with quotes/multibyte, REM text, strings, crunched keyword/identifier adjacencies, operators with inner blanks, statement-shaped lines, token soup) + a READ/PRINT tail; LIST, reload the listing into a fresh interpreter, LIST again, RUN both; non-trivial = more than one line reloaded".into())
+            }
             "c08" => {
                 let (c, e) = slices::sess::c08_cases(&mut rng, &tier);
                 (c, e, "nine INPUT placements (after colon, own line, THEN, ELSE, loop, subroutine, array target, two inputs, THEN..ELSE) x numeric/string target x 21 reply texts, snapshot before and after every reply".into())
